@@ -58,3 +58,25 @@ OBLIGATIONS += [
         desc="Index encoder from ANY running-CRC state at the Index Padding, with the output cut at every possible point (inside the padding, inside the CRC32 field): the CRC32 field equals the CRC of all preceding bytes with each byte counted exactly once",
         bounds_q="all running CRC values, 0-3 padding bytes, every cut point"),
 ]
+# Block encoder body: payload pass-through, Block Padding, Check field, truthful sizes (also C12: sync flush)
+OBLIGATIONS.append(Obligation(
+    name="block_encode_body", src="blockenc.c", func="harness_block_encode",
+    units=[S + "common/common.c", S + "check/check.c"],
+    defs=["VLOOP_MEM", "VLOOP_MEM_ONECHECK"], qdefs=["NIN=4", "PMAX=6", "CHKMAX=8", "CALLS=2"], tdefs=["NIN=5", "PMAX=7", "CHKMAX=32", "CALLS=3"],
+    hdefs=["lzma_raw_encoder_init=vstub_raw_encoder_init", "lzma_check_init=vstub_check_init",
+           "lzma_check_update=vstub_check_update", "lzma_check_finish=vstub_check_finish"],
+    qunwind=19, tunwind=45, timeout_q=400, timeout_t=3000, mem_gb=12,
+    fp_restrict=["harness_block_encode.function_pointer_call.1/block_encode",
+                 "block_encode.function_pointer_call.1/raw_code"],
+    functions=["lzma_block_encoder_init", "block_encode", "lzma_check_size", "lzma_check_is_supported", "lzma_bufcpy"],
+    stubs=["filter chain (lzma_raw_encoder_init / next.code): consumes and produces arbitrary amounts per call; STREAM_END only for SYNC_FLUSH/FINISH with all input consumed; payload bytes are recognisable markers",
+           "lzma_check_init/update/finish: the Check value of the input is an arbitrary byte string EXP; the harness verifies that exactly the consumed input bytes are fed, in order"],
+    desc="Block encoder (lzma_block_encoder_init + block_encode): for every input length, every spreading of the "
+         "filter chain's output over calls, every output slicing and supported Check: the bytes written are "
+         "payload + zero padding to a multiple of four + Check value, nothing else; compressed_size, "
+         "uncompressed_size and raw_check handed back in lzma_block are the true ones; exactly the input bytes "
+         "went into the Check; a completed SYNC_FLUSH passes through without ending the Block; unsupported / "
+         "invalid Check IDs and unknown versions are refused at init",
+    bounds_q="input <= 4 bytes, payload <= 6 bytes, Checks with fields <= 8 bytes (None/CRC32/CRC64), 2 symbolic calls (RUN / SYNC_FLUSH / FINISH) + final FINISH call",
+    bounds_t="input <= 5, payload <= 7, Check fields <= 32 bytes (adds SHA-256), 3 symbolic calls",
+    outside="the filter chain itself; payloads beyond the bound (accounting is by counters); COMPRESSED_SIZE_MAX overflow branch (needs 2^63 bytes of output)"))
